@@ -24,8 +24,13 @@ def common_prefix(a, b):
     return k
 
 
-def merge_outcomes(outs):
+NO_MERGE = False
+
+
+def merge_outcomes(outs, force=False):
     """merge outcomes of equal kind where possible."""
+    if NO_MERGE and not force:
+        return list(outs)
     res = []
     by = {}
     for o in outs:
@@ -130,6 +135,10 @@ class Flow:
             if m is not None:
                 return m(n, st)
             # expression statement
+            if k == 'CallExpr' and NO_MERGE:
+                r = self.call_stmt(n, st)
+                if r is not None:
+                    return r
             exe.ev(n, st)
             return [Outcome('next', st)]
         except PathDead:
@@ -137,6 +146,29 @@ class Flow:
         except ErrorExit as e:
             st.ghost['$err'] = (e.callee, exe._loc(e.node) if e.node else '')
             return [Outcome('error', st)]
+
+    def call_stmt(self, n, st):
+        """a call statement to an inlined callee, without merging its return paths (each path continues on its own)."""
+        exe = self.exe
+        name = exe._callee_name(n)
+        con = exe.contracts.get(name)
+        inl = (con is not None and con.get('inline')) or (con is None and exe.contracts.get('__auto_inline__'))
+        if name is None or name in exe.hooks or not inl or name not in exe.tu.functions:
+            return None
+        prev, exe.cur = exe.cur, st
+        try:
+            args = [exe._ev(a, st) for a in n['inner'][1:]]
+        finally:
+            exe.cur = prev
+        outs = self.run_function(exe.tu.functions[name], args, st)
+        res = []
+        for o in outs:
+            if o.kind == 'error':
+                res.append(o)
+            else:
+                o.st.ghost.pop('$ret', None)
+                res.append(Outcome('next', o.st))
+        return res
 
     def s_NullStmt(self, n, st):
         return [Outcome('next', st)]
